@@ -95,13 +95,38 @@ def task_from_handle(
     # like the Task it was created for. But it doesn't.
     # it would be possible by replacing the callable with a custom class instance
     # with extra information, but it requires cooperation from the Task
+    callback = handle._callback  # type: ignore
     try:
-        task = handle._callback.__self__  # type: ignore
+        task = callback.__self__
     except AttributeError:
         return None
-    if isinstance(task, TaskTypes):
+    # Only the Task's own __step() / __wakeup() callbacks make it runnable.
+    # Other bound methods of a Task, e.g. `loop.call_soon(task.cancel)`,
+    # say nothing about the state of the task.
+    if isinstance(task, TaskTypes) and is_task_callback(callback):
         return cast(TaskAny, task)
     return None
+
+
+# The names under which the __step() and __wakeup() methods of a Task show up as
+# scheduled callbacks.  Python tasks schedule the bound methods themselves.  C tasks
+# schedule a `TaskStepMethWrapper` instance, and the builtin `task_wakeup()` method
+# (a `TaskWakeupMethWrapper` instance in Python 3.9 and earlier).
+TASK_CALLBACK_NAMES = frozenset(
+    (
+        "__step",
+        "__wakeup",
+        "task_wakeup",
+        "TaskStepMethWrapper",
+        "TaskWakeupMethWrapper",
+    )
+)
+
+
+def is_task_callback(callback: Any) -> bool:
+    """Returns True if the callback is the __step() or __wakeup() method of a Task."""
+    name = getattr(callback, "__name__", None) or type(callback).__name__
+    return name in TASK_CALLBACK_NAMES
 
 
 def queue_find(
